@@ -34,7 +34,7 @@ var numTypes = []string{"i8", "i16", "i32", "i64", "u8", "u16", "u32", "u64", "f
 
 func genSpec(t *rapid.T) *hist.DSpec {
 	d := &hist.DSpec{}
-	switch kind := rapid.SampledFrom([]string{"num", "num", "num", "str", "arr", "enum", "objref", "regref", "opaque"}).Draw(t, "kind"); kind {
+	switch kind := rapid.SampledFrom([]string{"num", "num", "num", "str", "arr", "enum", "objref", "regref", "opaque", "cmp", "vl"}).Draw(t, "kind"); kind {
 	case "num":
 		d.Type = rapid.SampledFrom(numTypes).Draw(t, "type")
 	case "str":
@@ -46,6 +46,10 @@ func genSpec(t *rapid.T) *hist.DSpec {
 		d.Type, d.EnumN = "enum:"+rapid.SampledFrom(numTypes[:8]).Draw(t, "base"), rapid.IntRange(1, 5).Draw(t, "enum_n")
 	case "opaque":
 		d.Type, d.OpaqueLen, d.OpaqueTag = "opaque", rapid.SampledFrom([]int{1, 5, 8}).Draw(t, "olen"), rapid.SampledFrom([]string{"t", "opaque tag"}).Draw(t, "otag")
+	case "cmp":
+		d.Type = rapid.SampledFrom([]string{"cmp:num", "cmp:str"}).Draw(t, "cmp")
+	case "vl":
+		d.Type = rapid.SampledFrom([]string{"vl:str", "vl:i32"}).Draw(t, "vl")
 	default:
 		d.Type = kind
 	}
@@ -61,6 +65,11 @@ func genSpec(t *rapid.T) *hist.DSpec {
 			for range d.Dims {
 				d.MaxDims = append(d.MaxDims, hdf5.Unlimited)
 			}
+		}
+		// filtered chunks: the library's own reader cannot read them back (KF-C08-01) but the stored bytes must still be
+		// well-formed for an independent decoder (deflate stream, shuffle, Fletcher-32 of every chunk)
+		if k, _ := d.Base(); k != "cmp" && k != "vl" && rapid.IntRange(0, 3).Draw(t, "filtered") == 0 {
+			d.Filters = rapid.SliceOfNDistinct(rapid.SampledFrom([]string{"gzip:1", "gzip:6", "gzip:9", "shuffle", "fletcher"}), 1, 3, func(s string) string { return s[:3] }).Draw(t, "filters")
 		}
 	}
 	return d
